@@ -1230,6 +1230,35 @@ impl DB {
             let (mut write_batch, last_writer_in_batch) =
                 self.build_group_commit_batch(&mut fields_mutex_guard)?;
             last_writer = last_writer_in_batch;
+            #[cfg(feature = "verif")]
+            if fields_mutex_guard.writer_queue.len() > 1 {
+                let queue = fields_mutex_guard
+                    .writer_queue
+                    .iter()
+                    .map(|queued| match queued.maybe_batch() {
+                        Some(batch) => (
+                            batch.get_approximate_size(),
+                            queued.is_synchronous_write(),
+                            true,
+                            batch.len(),
+                        ),
+                        None => (0, queued.is_synchronous_write(), false, 0),
+                    })
+                    .collect();
+                let last = fields_mutex_guard
+                    .writer_queue
+                    .iter()
+                    .position(|queued| Arc::ptr_eq(queued, &last_writer))
+                    .unwrap_or(usize::MAX);
+                crate::verif::event(
+                    self.options.db_path(),
+                    crate::verif::Event::Group {
+                        queue,
+                        last,
+                        operations: write_batch.len(),
+                    },
+                );
+            }
             write_batch.set_starting_seq_number(prev_sequence_number + 1);
             let sequence_number_after_write = prev_sequence_number + (write_batch.len() as u64);
 
